@@ -541,7 +541,299 @@ class TurnT2Cache(StageComp):
                 yield dict(case, turns=ts[:i] + ts[i + 1:])
 
 
-COMPONENTS = [TurnYield(), StageT1(), StageT2(), TurnT2Cache()]
+# --------------------------------------------------------------------------
+# HISTORY components: several real calls on ONE world in ONE process, the process-global stage caches are
+# NOT reset between the calls, slice budgets vary per call (absent / loose / tight / 0).  Every call is
+# monitored (per-graph clamp) and compared with the same call made with the stage cache switched off
+# (a result served from a cache must be the result this slice would have computed).
+# Graph ids / query texts carry a per-case token: no cross-case hits (the etag is only a count hash).
+# --------------------------------------------------------------------------
+
+class HistT1(StageComp):
+    name = "hist.t1"
+    budget = {"quick": 120, "thorough": 1500, "search": 600}
+
+    def gen(self, rng: random.Random, i: int) -> dict:
+        graphs = [{"shape": rng.choice(["chain", "star", "chain"]), "size": rng.choice([2, 3, 5, 7]),
+                   "w": rng.choice([900, 800])} for _ in range(rng.choice([1, 1, 2]))]
+        calls = []
+        for _ in range(rng.choice([2, 2, 3, 4])):
+            r = rng.random()
+            caps = {}
+            if r < 0.3:
+                pass                                   # scheduler off / no budgets: unclamped
+            else:
+                if rng.random() < 0.75:
+                    caps["t1_pops"] = rng.choice([0, 0, 1, 2, 3, 100])
+                if rng.random() < 0.6:
+                    caps["t1_iters"] = rng.choice([0, 1, 1, 2, 50])
+            calls.append(caps)
+        return {"graphs": graphs, "calls": calls, "queue_budget": rng.choice([10000, 10000, 4]),
+                "iter_cap": rng.choice([50, 50, 2]), "cache": rng.random() < 0.85}
+
+    @staticmethod
+    def _call(case, store, gids, caps, cache_on):
+        from clematis.engine.types import Config
+        from clematis.engine.stages.t1 import t1_propagate
+        cfg = Config()
+        cfg.t1["queue_budget"] = case["queue_budget"]
+        cfg.t1["iter_cap"] = case["iter_cap"]
+        cfg.t1["iter_cap_layers"] = case["iter_cap"]
+        if not cache_on:
+            cfg.t1["cache"] = {"enabled": False, "max_entries": 0, "ttl_s": 0}
+        ctx = type("Ctx", (), {"cfg": cfg, "turn_id": "t", "agent_id": "A"})()
+        if caps:
+            ctx.slice_budgets = dict(caps)
+        r = t1_propagate(ctx, {"store": store, "active_graphs": list(gids)}, "hello")
+        return {"pops": int(r.metrics["pops"]), "iters": int(r.metrics["iters"]),
+                "deltas": sorted(str(d.get("id")) for d in r.graph_deltas)}
+
+    def impl(self, case):
+        from clematis.graph.store import InMemoryGraphStore, Node, Edge
+        tok = _case_token(case)
+        store = InMemoryGraphStore()
+        gids = []
+        for gi, g in enumerate(case["graphs"]):
+            gid = f"h{tok}:{gi}"
+            gids.append(gid)
+            store.ensure(gid)
+            n = g["size"]
+            store.upsert_nodes(gid, [Node(id=f"n{gi}:0", label="hello")] + [Node(id=f"n{gi}:{k}", label=f"x{k}") for k in range(1, n)])
+            edges = [Edge(id=f"e{gi}:{k}", src=(f"n{gi}:{k - 1}" if g["shape"] == "chain" else f"n{gi}:0"), dst=f"n{gi}:{k}",
+                          weight=g["w"] / 1000.0, rel="supports") for k in range(1, n)]
+            if edges:
+                store.upsert_edges(gid, edges)
+        out = []
+        for caps in case["calls"]:
+            per = []
+            for gid in gids:
+                warm = self._call(case, store, [gid], caps, case["cache"])
+                ref = self._call(case, store, [gid], caps, False)
+                per.append({"warm": warm, "ref": ref})
+            allw = self._call(case, store, gids, caps, case["cache"])
+            allr = self._call(case, store, gids, caps, False)
+            out.append({"per": per, "all": {"warm": allw, "ref": allr}})
+        return out
+
+    def monitors(self, case, io):
+        res = []
+        for ci, (caps, o) in enumerate(zip(case["calls"], io)):
+            pc = min(case["queue_budget"], caps["t1_pops"]) if "t1_pops" in caps else case["queue_budget"]
+            ic = min(case["iter_cap"], caps["t1_iters"]) if "t1_iters" in caps else case["iter_cap"]
+            for gi, m in enumerate(o["per"]):
+                w = m["warm"]
+                res.append(("t1_pops_clamped_per_graph", w["pops"] <= max(pc, 0),
+                            f"call {ci} (slice budgets {caps}, earlier calls {case['calls'][:ci]}) graph {gi}: pops {w['pops']} > cap {pc}"))
+                res.append(("t1_iters_clamped_per_graph", w["iters"] <= max(ic, 0),
+                            f"call {ci} (slice budgets {caps}, earlier calls {case['calls'][:ci]}) graph {gi}: iters {w['iters']} > cap {ic}"))
+                res.append(("t1_same_as_uncached", w == m["ref"],
+                            f"call {ci} (slice budgets {caps}, earlier calls {case['calls'][:ci]}) graph {gi}: served {w} but this slice computes {m['ref']}"))
+            res.append(("t1_same_as_uncached", o["all"]["warm"] == o["all"]["ref"],
+                        f"call {ci} (slice budgets {caps}) all graphs: served {o['all']['warm']} but this slice computes {o['all']['ref']}"))
+        return res
+
+    def tags(self, case, io):
+        t = ["cache_on" if case["cache"] else "cache_off"]
+        seen = []
+        for caps in case["calls"]:
+            if caps in seen:
+                t.append("repeated_budget")
+            seen.append(caps)
+        pops = [o["per"][0]["ref"]["pops"] for o in io]
+        if len(set(pops)) > 1:
+            t.append("budget_changes_result")
+        if any(not c for c in case["calls"]) and any(c for c in case["calls"]):
+            t.append("off_and_on")
+        for a, b in zip(case["calls"], case["calls"][1:]):
+            if a.get("t1_pops", 10 ** 9) > b.get("t1_pops", 10 ** 9) or a.get("t1_iters", 10 ** 9) > b.get("t1_iters", 10 ** 9):
+                t.append("loose_then_tight")
+                break
+        return sorted(set(t))
+
+    def shrink(self, case):
+        cs = case["calls"]
+        for i in range(len(cs)):
+            if len(cs) > 1:
+                yield dict(case, calls=cs[:i] + cs[i + 1:])
+        gs = case["graphs"]
+        for i in range(len(gs)):
+            if len(gs) > 1:
+                yield dict(case, graphs=gs[:i] + gs[i + 1:])
+        for i, g in enumerate(gs):
+            if g["size"] > 2:
+                yield dict(case, graphs=gs[:i] + [dict(g, size=g["size"] - 1)] + gs[i + 1:])
+
+
+class HistT2(StageComp):
+    name = "hist.t2"
+    budget = {"quick": 80, "thorough": 800, "search": 300}
+
+    def gen(self, rng: random.Random, i: int) -> dict:
+        calls = [rng.choice([{"missing": True}, {"missing": True}, 0, 0, 1, 2, 3, 64]) for _ in range(rng.choice([2, 3, 4]))]
+        return {"n": rng.choice([2, 3, 5, 8]), "calls": calls, "k_retrieval": rng.choice([3, 10]), "cache": rng.random() < 0.85}
+
+    @staticmethod
+    def _call(case, state, q, cap, cache_on):
+        from clematis.engine.types import Config, T1Result
+        from clematis.engine.stages.t2 import t2_semantic
+        cfg = Config()
+        cfg.t2["tiers"] = ["exact_semantic"]
+        cfg.t2["k_retrieval"] = case["k_retrieval"]
+        cfg.t2["sim_threshold"] = -1.0
+        cfg.t2["exact_recent_days"] = 30
+        if not cache_on:
+            cfg.t2["cache"] = {"enabled": False, "max_entries": 0, "ttl_s": 0}
+        ctx = type("Ctx", (), {})()
+        ctx.cfg = cfg
+        ctx.now = "2025-09-01T00:00:00Z"
+        if not isinstance(cap, dict):
+            ctx.slice_budgets = {"t2_k": cap}
+        r = t2_semantic(ctx, state, q, T1Result(graph_deltas=[], metrics={}))
+        return {"k_used": int(r.metrics.get("k_used")), "k_returned": int(r.metrics.get("k_returned")),
+                "ids": [str(getattr(h, "id", None)) for h in r.retrieved],
+                "residual": sorted(str(d.get("id")) for d in r.graph_deltas_residual)}
+
+    def impl(self, case):
+        state = _mem_state(case["n"])
+        q = "tell me about apple " + _case_token(case)
+        out = []
+        for cap in case["calls"]:
+            out.append({"warm": self._call(case, state, q, cap, case["cache"]), "ref": self._call(case, state, q, cap, False)})
+        return out
+
+    def monitors(self, case, io):
+        res = []
+        for ci, (cap, o) in enumerate(zip(case["calls"], io)):
+            if not isinstance(cap, dict):
+                res.append(("t2_k_used_clamped", o["warm"]["k_used"] <= _cap_value(cap),
+                            f"call {ci}: k_used {o['warm']['k_used']} > t2_k {cap!r} (calls {case['calls']})"))
+            res.append(("t2_same_as_uncached", o["warm"] == o["ref"],
+                        f"call {ci} (t2_k {cap!r}, calls {case['calls']}): served {o['warm']} but this slice computes {o['ref']}"))
+        return res
+
+    def tags(self, case, io):
+        t = ["cache_on" if case["cache"] else "cache_off"]
+        if len({o["ref"]["k_used"] for o in io}) > 1:
+            t.append("budget_changes_result")
+        if any(isinstance(c, dict) for c in case["calls"]) and any(not isinstance(c, dict) for c in case["calls"]):
+            t.append("off_and_on")
+        return t
+
+    def shrink(self, case):
+        cs = case["calls"]
+        for i in range(len(cs)):
+            if len(cs) > 1:
+                yield dict(case, calls=cs[:i] + cs[i + 1:])
+
+
+class HistTurn(StageComp):
+    """whole real `run_turn`s on one world (graph with edges + memory), scheduler off / on with varying T1 and
+    T2 budgets, all caches at their defaults or all off: each turn's logged stage work stays within that
+    turn's slice budgets (one active graph, so the per-graph clamp is the total)."""
+    name = "hist.turn"
+    budget = {"quick": 40, "thorough": 400, "search": 150}
+
+    def gen(self, rng: random.Random, i: int) -> dict:
+        turns = []
+        for _ in range(rng.choice([2, 3, 3, 4])):
+            if rng.random() < 0.3:
+                turns.append({"off": True})
+                continue
+            b = {}
+            if rng.random() < 0.7:
+                b["t1_pops"] = rng.choice([0, 1, 2, 100])
+            if rng.random() < 0.6:
+                b["t1_iters"] = rng.choice([0, 1, 2, 50])
+            if rng.random() < 0.7:
+                b["t2_k"] = rng.choice([0, 1, 3, 64])
+            turns.append({"b": b})
+        return {"n": rng.choice([2, 5]), "size": rng.choice([3, 5]), "turns": turns, "cache": rng.random() < 0.85}
+
+    def impl(self, case):
+        import clematis.engine.orchestrator as orch
+        from clematis.engine.orchestrator import core
+        from clematis.graph.store import InMemoryGraphStore, Node, Edge
+        tok = _case_token(case)
+        state = _mem_state(case["n"])
+        gid = "ht" + tok
+        store = InMemoryGraphStore()
+        store.ensure(gid)
+        n = case["size"]
+        store.upsert_nodes(gid, [Node(id="n:apple", label="apple")] + [Node(id=f"n:x{k}", label=f"x{k}") for k in range(1, n)])
+        store.upsert_edges(gid, [Edge(id=f"e:{k}", src=("n:apple" if k == 1 else f"n:x{k - 1}"), dst=f"n:x{k}", weight=0.9, rel="supports")
+                                 for k in range(1, n)])
+        state["store"], state["active_graphs"], state["version_etag"] = store, [gid], "0"
+        text = "tell me about apple " + tok
+        out = []
+        for t in case["turns"]:
+            cfg = base_cfg()
+            cfg["t1"].setdefault("decay", {"mode": "exp_floor", "rate": 0.6, "floor": 0.05})
+            cfg["t2"]["sim_threshold"] = -1.0
+            cfg["t2"]["tiers"] = ["exact_semantic"]
+            cfg["t2"]["exact_recent_days"] = 30
+            cfg.setdefault("t4", {})["snapshot_dir"] = str(STATE["scratch"])
+            if not case["cache"]:
+                cfg["t1"]["cache"] = {"enabled": False, "max_entries": 0, "ttl_s": 0}
+                cfg["t2"]["cache"] = {"enabled": False, "max_entries": 0, "ttl_s": 0}
+                cfg["t4"]["cache"] = {"enabled": False}
+            if t.get("off"):
+                cfg["scheduler"] = {"enabled": False}
+            else:
+                cfg["scheduler"] = {"enabled": True, "quantum_ms": 10 ** 8, "budgets": dict(t["b"], wall_ms=10 ** 9)}
+            ctx = SimpleNamespace(turn_id="1", agent_id="A", now="2025-09-01T00:00:00Z", now_ms=0, cfg=_attrdict(cfg))
+            recs: List[Tuple[str, dict]] = []
+            saved = orch.__dict__.get("append_jsonl")
+            try:
+                orch.append_jsonl = lambda f, p: recs.append((f, copy.deepcopy(p)))
+                core.run_turn(ctx, state, text)
+            finally:
+                if saved is None:
+                    orch.__dict__.pop("append_jsonl", None)
+                else:
+                    orch.append_jsonl = saved
+            t1 = [p for f, p in recs if f == "t1.jsonl"]
+            t2 = [p for f, p in recs if f == "t2.jsonl"]
+            ev = [p for f, p in recs if f == "scheduler.jsonl"]
+            out.append({"pops": t1[0].get("pops") if t1 else None, "iters": t1[0].get("iters") if t1 else None,
+                        "t1_cache_hits": t1[0].get("cache_hits") if t1 else None,
+                        "k_used": t2[0].get("k_used") if t2 else None,
+                        "yield": [ev[0].get("stage_end"), ev[0].get("reason")] if ev else None})
+        return out
+
+    def monitors(self, case, io):
+        res = []
+        for ti, (t, o) in enumerate(zip(case["turns"], io)):
+            if t.get("off"):
+                res.append(("off_turn_never_yields", o["yield"] is None, f"turn {ti} scheduler off but yielded {o['yield']}"))
+                continue
+            b = t["b"]
+            ctxt = f"turn {ti} budgets {b} after turns {case['turns'][:ti]}: {o}"
+            if "t1_pops" in b and o["pops"] is not None:
+                res.append(("turn_t1_pops_clamped", o["pops"] <= b["t1_pops"], ctxt))
+            if "t1_iters" in b and o["iters"] is not None:
+                res.append(("turn_t1_iters_clamped", o["iters"] <= b["t1_iters"], ctxt))
+            if "t2_k" in b and o["k_used"] is not None:
+                res.append(("turn_t2_k_used_clamped", o["k_used"] <= b["t2_k"], ctxt))
+        return res
+
+    def tags(self, case, io):
+        t = ["cache_on" if case["cache"] else "cache_off"]
+        if any(o.get("t1_cache_hits") for o in io):
+            t.append("t1_cache_hit")
+        if any(o.get("yield") for o in io):
+            t.append("yielded")
+        if any(x.get("off") for x in case["turns"]) and any(not x.get("off") for x in case["turns"]):
+            t.append("off_and_on")
+        return t
+
+    def shrink(self, case):
+        ts = case["turns"]
+        for i in range(len(ts)):
+            if len(ts) > 1:
+                yield dict(case, turns=ts[:i] + ts[i + 1:])
+
+
+COMPONENTS = [TurnYield(), StageT1(), StageT2(), TurnT2Cache(), HistT1(), HistT2(), HistTurn()]
 
 
 def run(ctx: Ctx) -> None:
